@@ -1,7 +1,7 @@
 //! Per-property orchestration: which scenarios, how many runs, evidence, exit codes,
 //! and the supervisor that turns a process abort into a reported violation.
 
-use std::{path::PathBuf, process::Command, time::Instant};
+use std::{collections::BTreeMap, path::PathBuf, process::Command, time::Instant};
 
 use serde_json::{json, Value};
 
@@ -39,6 +39,8 @@ pub fn with_scenario<V: Visitor>(name: &str, v: V) -> Option<V::Out> {
 		"c04_history" => v.visit(&c04::C04History),
 		"c04_native" => v.visit(&c04::C04Native),
 		"c04_stdedge" => v.visit(&c04::C04StdEdge),
+		"c04_source" => v.visit(&c04::C04Source),
+		"c04_explain" => v.visit(&c04::C04Explain),
 		"c07_m1" => v.visit(&c07::C07M1),
 		"c07_m2" => v.visit(&c07::C07M2),
 		"c07_cli" => v.visit(&cli::C07Cli),
@@ -65,7 +67,7 @@ pub fn with_scenario<V: Visitor>(name: &str, v: V) -> Option<V::Out> {
 pub fn scenarios_of(property: &str) -> Vec<(&'static str, u64, u64)> {
 	match property {
 		"C03" => vec![("c03_demand", 60_000, 4_000_000)],
-		"C04" => vec![("c04_sweep", 1_500, 100_000), ("c04_history", 15_000, 600_000), ("c04_stdedge", 8_000, 400_000), ("c04_native", 250, 5_000)],
+		"C04" => vec![("c04_sweep", 1_500, 100_000), ("c04_history", 15_000, 600_000), ("c04_stdedge", 8_000, 400_000), ("c04_source", 10_000, 500_000), ("c04_explain", 600, 30_000), ("c04_native", 250, 5_000)],
 		"C07" => vec![("c07_m1", 40_000, 3_000_000), ("c07_m2", 8_000, 400_000), ("c07_cli", 800, 40_000)],
 		"C15" => vec![("c15_cli", 1_000, 30_000), ("c15_deps", 600, 20_000), ("c15_capi", 1_200, 30_000)],
 		"C16" => vec![("c16_history", 30_000, 1_000_000), ("c16_procs", 250, 8_000)],
@@ -89,9 +91,9 @@ fn texts(property: &str) -> (&'static str, Vec<String>) {
 			],
 		),
 		"C04" => (
-			"c04_sweep: one case = a depth-parametric template (function recursion, mutual recursion, object chain, array nesting + manifestation, super chain, local chain, import chain, array element chain, foldl) at 2-3 depths, evaluated under every frame limit of a seeded list (dense small limits, then strided, always 200 and 512), on fresh or shared states: each outcome must be the closed-form value or a stack overflow error, monotone in the limit, thresholds monotone in the depth, shallow recursion fits the defaults, and the guarded accessors read depth 0 / nothing evaluating after every cut-off. c04_history: 2-40 pool programs (every error kind reachable from source, cut-offs, self-dependence, runaway recursion) on one thread and two long-lived states, then a canary program that must evaluate normally. c04_stdedge: 10-120 standard-library calls, operators, index and slice expressions on boundary-heavy argument tuples (empty, huge, negative, fractional, wrong type, wrong arity, non-ASCII, ropes, lazy views; sizes that would honestly need gigabytes are kept small) on one thread and state, with and without a hash salt and frame limit, then the canary. c04_native: the jrsonnet executable on runaway recursion / recursion well below the limit / self-dependence / deeply nested source, across --max-stack {200,512,5000,50000} and --os-stack settings, supervised as a child (signal, abort, hang = violation). Non-trivial = at least one cut-off or error actually happened / a non-default stack configuration was used; distinct = distinct event-log digests.",
+			"c04_sweep: one case = a depth-parametric template (function recursion, mutual recursion, object chain, array nesting + manifestation, super chain, local chain, import chain, array element chain, foldl) at 2-3 depths, evaluated under every frame limit of a seeded list (dense small limits, then strided, always 200 and 512), on fresh or shared states: each outcome must be the closed-form value or a stack overflow error, monotone in the limit, thresholds monotone in the depth, shallow recursion fits the defaults, and the guarded accessors read depth 0 / nothing evaluating after every cut-off. c04_history: 2-40 pool programs (every error kind reachable from source, cut-offs, self-dependence, runaway recursion) on one thread and two long-lived states, then a canary program that must evaluate normally. c04_stdedge: 10-120 standard-library calls, operators, index and slice expressions on boundary-heavy argument tuples (empty, huge, negative, fractional, wrong type, wrong arity, non-ASCII, ropes, lazy views; sizes that would honestly need gigabytes are kept small) on one thread and state, with and without a hash salt and frame limit, then the canary. c04_source: 3-30 pool programs damaged at the character or token level (truncation, deleted/duplicated/swapped tokens, inserted quotes, brackets, keywords, comments, text blocks, multi-byte and control characters), as the snippet or as an imported file, on one thread and state, every error rendered by the compact trace format in every path style, then the canary. c04_explain: the executable with --trace-format explaining on damaged and multi-line sources, one supervised child per source under a 384 MiB address-space limit and a two-minute watchdog. c04_native: the jrsonnet executable on runaway recursion / recursion well below the limit / self-dependence / deeply nested source, across --max-stack {200,512,5000,50000} and --os-stack settings, supervised as a child (signal, abort, hang = violation). Non-trivial = at least one cut-off or error actually happened / a non-default stack configuration was used; distinct = distinct event-log digests.",
 			vec![
-				"clause (i) of C04 over arbitrary source text is NOT decided by this check (it is a statement about inputs); std arguments are sampled from fixed boundary pools per parameter kind (stdedge.rs), not enumerated".into(),
+				"clause (i) of C04 is sampled, not decided: source texts are seeded mutations of the program pool (mutate.rs), std arguments come from fixed boundary pools per parameter kind (stdedge.rs)".into(),
 				"closed forms of the depth templates are right".into(),
 			],
 		),
@@ -321,15 +323,37 @@ pub fn check(property: &str, tier: Tier, seed: u64, workers: usize) -> i32 {
 	abort_hunt(property, tier, seed, workers, &format!("{status}"))
 }
 
+/// Waits for a child of the supervisor; a child that is still there after `limit` is killed and counts as dead
+/// (a hang is as abnormal as an abort).
+fn wait_limited(child: &mut std::process::Child, limit: std::time::Duration) -> Option<std::process::ExitStatus> {
+	let start = Instant::now();
+	loop {
+		match child.try_wait() {
+			Ok(Some(st)) => return Some(st),
+			Ok(None) => {}
+			Err(_) => return None,
+		}
+		if start.elapsed() > limit {
+			let _ = child.kill();
+			let _ = child.wait();
+			return None;
+		}
+		std::thread::sleep(std::time::Duration::from_millis(20));
+	}
+}
+
 fn range_child(scn: &str, tier: Tier, seed: u64, workers: usize, lo: u64, hi: u64) -> Option<i32> {
-	let status = Command::new(self_exe())
+	let mut child = Command::new(self_exe())
 		.args(["range", scn, tier.name(), &lo.to_string(), &hi.to_string()])
 		.env("VERIF_SEED", seed.to_string())
 		.env("VERIF_WORKERS", workers.to_string())
 		.stdout(std::process::Stdio::null())
 		.stderr(std::process::Stdio::null())
-		.status()
+		.spawn()
 		.ok()?;
+	// generous for the size of the range; what is still running after that hangs
+	let limit = std::time::Duration::from_millis(45_000 + hi.saturating_sub(lo) * 5);
+	let status = wait_limited(&mut child, limit)?;
 	normal_exit(&status)
 }
 
@@ -361,6 +385,49 @@ impl Visitor for RangeRun {
 		i32::from(!res.violations.is_empty())
 	}
 }
+struct Explore {
+	tier: Tier,
+	seed: u64,
+	workers: usize,
+	lo: u64,
+	hi: u64,
+}
+impl Visitor for Explore {
+	type Out = i32;
+	fn visit<S: Scenario>(self, s: &S) -> i32 {
+		let cfg = BatchCfg {
+			seed: self.seed,
+			runs: self.hi,
+			first: self.lo,
+			workers: self.workers,
+			tier: self.tier,
+			samples: 0,
+			strict_teardown: false,
+			collect_digests_upto: 0,
+			budget: None,
+		};
+		let res = run_batch(s, &cfg);
+		for e in &res.harness_errors {
+			println!("harness error: {e}");
+		}
+		let mut sigs: BTreeMap<String, (u64, u64)> = BTreeMap::new();
+		for (run, v, _) in &res.violations {
+			let e = sigs.entry(format!("{} {}", v.oracle, v.signature)).or_insert((0, *run));
+			e.0 += 1;
+		}
+		for (k, (n, first)) in &sigs {
+			println!("explore: {n:>6} x {k} (first run {first})");
+		}
+		harness::report_violations(s, &cfg, &res);
+		println!("explore: {} runs {}..{} of {}: {} violations, wall {:.1}s", s.name(), self.lo, self.hi, self.seed, res.violations.len(), res.wall.as_secs_f64());
+		i32::from(!res.violations.is_empty())
+	}
+}
+/// Development aid (not a registered command): one scenario, a run range, all violation signatures listed.
+pub fn explore(scn: &str, tier: Tier, seed: u64, workers: usize, lo: u64, hi: u64) -> i32 {
+	with_scenario(scn, Explore { tier, seed, workers, lo, hi }).unwrap_or(2)
+}
+
 pub fn range(scn: &str, tier: Tier, seed: u64, workers: usize, lo: u64, hi: u64) -> i32 {
 	with_scenario(scn, RangeRun { tier, seed, workers, lo, hi }).unwrap_or(2)
 }
@@ -378,14 +445,15 @@ fn plan_kills_child(scn: &str, plan: &Value) -> bool {
 	if std::fs::write(&path, serde_json::to_string(plan).unwrap_or_default()).is_err() {
 		return false;
 	}
-	let status = Command::new(self_exe())
+	let child = Command::new(self_exe())
 		.args(["run-plan", scn])
 		.arg(&path)
 		.stdout(std::process::Stdio::null())
 		.stderr(std::process::Stdio::null())
-		.status();
-	match status {
-		Ok(s) => normal_exit(&s).is_none(),
+		.spawn();
+	match child {
+		// one plan runs in milliseconds to seconds; still there after a minute = it hangs
+		Ok(mut c) => wait_limited(&mut c, std::time::Duration::from_secs(60)).is_none_or(|s| normal_exit(&s).is_none()),
 		Err(_) => false,
 	}
 }
@@ -404,9 +472,11 @@ impl Visitor for AbortShrink<'_> {
 			return None;
 		}
 		let mut tried = 0u64;
+		let started = Instant::now();
 		'outer: loop {
 			for cand in s.shrink(&plan) {
-				if tried >= 250 {
+				// a plan that hangs costs a full watchdog period per candidate: minimise within a time budget
+				if tried >= 250 || started.elapsed() > std::time::Duration::from_secs(300) {
 					break 'outer;
 				}
 				tried += 1;
